@@ -172,6 +172,29 @@ func (f *Frame) execCall(st *State, x *ssa.Call) Value {
 			return f.contractCall(st, x, ftc, nil, args, ptypes, sig.Results(), nt.Obj().Name())
 		}
 	}
+	// a function stored in a struct field that has an (assumed) field contract:
+	//   //@ func fieldfunc:T.f(params) (results)   with "trusted interface contract ..."
+	if key := funcFieldKey(cc.Value); key != "" {
+		short := key
+		if i := strings.LastIndex(key, "/"); i >= 0 {
+			short = key[i+1:]
+		}
+		// fieldKey is "pkg.T.f"; the contract key is "<pkg>.fieldfunc:T.f"
+		if j := strings.Index(short, "."); j >= 0 {
+			if fc := vc.CS.Funcs[short[:j]+".fieldfunc:"+short[j+1:]]; fc != nil {
+				if sig, ok := cc.Value.Type().Underlying().(*types.Signature); ok {
+					args := make([]Value, len(cc.Args))
+					var ptypes []types.Type
+					for i, a := range cc.Args {
+						args[i] = f.lookup(st, a)
+						ptypes = append(ptypes, sig.Params().At(i).Type())
+					}
+					vc.note("the function stored in %s is assumed to satisfy its field contract", short)
+					return f.contractCall(st, x, fc, nil, args, ptypes, sig.Results(), short[j+1:])
+				}
+			}
+		}
+	}
 	// call through a function value: if the value was loaded from a struct field the
 	// call is recorded in a ghost log (ncalls / callarg spec functions)
 	vc.havocAll(st, "call through function value in "+f.fn.Name())
